@@ -43,6 +43,29 @@ type foldCase struct {
 	Order []string `json:"order"`
 	Expr  []string `json:"expr"`
 	Val   int      `json:"val"`
+	// ReadOnly: the model's action property [][obj' = obj]: no helper may change the structure it is given
+	ReadOnly bool `json:"readonly"`
+}
+
+// dumpAny renders any value structurally (used to compare a match result before and after a helper call).
+func dumpAny(v any) string {
+	switch v := v.(type) {
+	case nil:
+		return "nil"
+	case string:
+		return v
+	case *tpl.Token:
+		return v.String()
+	case *ast.Ident:
+		return v.Name
+	case []any:
+		parts := make([]string, len(v))
+		for i, x := range v {
+			parts[i] = dumpAny(x)
+		}
+		return "[" + strings.Join(parts, " ") + "]"
+	}
+	return fmt.Sprintf("<%T>", v)
 }
 
 func (n *lrNode) atom() string {
@@ -144,6 +167,8 @@ func foldDiff(want, got string) string {
 		return strings.NewReplacer("(", "", ")", "", "[", "", "]", "", " ", "").Replace(s)
 	}
 	switch {
+	case strings.Contains(got, "[") && !strings.Contains(want, "["):
+		return "nested-list-not-folded"
 	case strip(want) == strip(got):
 		return "association"
 	case len(strip(got)) < len(strip(want)):
@@ -192,59 +217,95 @@ func runFold() {
 			}()
 			f()
 		}
-		in := func() []any { return c.LR.build(strLeaf).([]any) }
-		src := showAny(in())
-		// BinaryOp: left fold, separators in order
-		guard("BinaryOp", func() {
-			got := showAny(tpl.BinaryOp(c.Rec, in(), symFn))
-			if got != c.Fold {
-				fail("BinaryOp"+variant+":"+foldDiff(c.Fold, got), fmt.Sprintf("BinaryOp(%v, %s): got %s, left fold is %s", c.Rec, src, got, c.Fold))
+		// One structure is shared by all calls, every helper is called more than once and in both orders, and the
+		// structure is compared with its snapshot after every call: the helpers only read a match result.
+		in := c.LR.build(strLeaf).([]any)
+		snap := dumpAny(in)
+		src := showAny(in)
+		unchanged := func(name string) {
+			if !c.ReadOnly {
+				return
 			}
-			var got2 string
-			if c.Rec {
-				got2 = showAny(tpl.BinaryOpR(in(), symFn))
-			} else {
-				got2 = showAny(tpl.BinaryOpNR(in(), symFn))
+			if now := dumpAny(in); now != snap {
+				fail(name+":modifies-input", fmt.Sprintf("%s(%s) changed the match result it was given: now %s", name, snap, now))
+				in = c.LR.build(strLeaf).([]any) // go on with a fresh copy
 			}
-			if got2 != c.Fold {
-				fail("BinaryOp"+variant+":"+foldDiff(c.Fold, got2), fmt.Sprintf("BinaryOp%s(%s): got %s, left fold is %s", variant, src, got2, c.Fold))
-			}
-		})
+		}
+		binop := func(name string, call func() any) {
+			guard(name, func() {
+				got := showAny(call())
+				if got != c.Fold {
+					fail("BinaryOp"+variant+":"+foldDiff(c.Fold, got), fmt.Sprintf("%s(%s): got %s, left fold is %s", name, src, got, c.Fold))
+				}
+			})
+			unchanged("BinaryOp" + variant)
+		}
+		// BinaryOp: left fold, separators in order (twice through the dispatcher, once directly)
+		binop("BinaryOp", func() any { return tpl.BinaryOp(c.Rec, in, symFn) })
+		if c.Rec {
+			binop("BinaryOpR", func() any { return tpl.BinaryOpR(in, symFn) })
+		} else {
+			binop("BinaryOpNR", func() any { return tpl.BinaryOpNR(in, symFn) })
+		}
+		binop("BinaryOp", func() any { return tpl.BinaryOp(c.Rec, in, symFn) })
 		// BinaryExpr: the same fold as an expression tree (NR needs expression elements: flat lists only)
 		if c.Rec || !c.LR.nested() {
-			guard("BinaryExpr", func() {
-				inE := c.LR.build(identLeaf).([]any)
-				got := showAny(tpl.BinaryExpr(c.Rec, inE))
-				if got != c.Fold {
-					fail("BinaryExpr"+variant+":"+foldDiff(c.Fold, got), fmt.Sprintf("BinaryExpr(%v, %s): got %s, left fold is %s", c.Rec, src, got, c.Fold))
+			inE := c.LR.build(identLeaf).([]any)
+			snapE := dumpAny(inE)
+			for round := 0; round < 2; round++ {
+				guard("BinaryExpr", func() {
+					got := showAny(tpl.BinaryExpr(c.Rec, inE))
+					if got != c.Fold {
+						fail("BinaryExpr"+variant+":"+foldDiff(c.Fold, got), fmt.Sprintf("BinaryExpr(%v, %s): got %s, left fold is %s", c.Rec, src, got, c.Fold))
+					}
+				})
+				if now := dumpAny(inE); c.ReadOnly && now != snapE {
+					fail("BinaryExpr"+variant+":modifies-input", fmt.Sprintf("BinaryExpr(%s) changed the match result it was given: now %s", snapE, now))
+					break
 				}
-			})
+			}
 		}
-		// List / ListOp / RangeOp: the elements in source order (checked once per structure)
+		// List / ListOp / RangeOp: the elements in source order -- each twice, interleaved in both orders
 		if !c.Rec {
 			want := strings.Join(c.Order, " ; ")
-			guard("List", func() {
-				var got []string
-				for _, v := range tpl.List(in()) {
-					got = append(got, showAny(v))
-				}
-				if g := strings.Join(got, " ; "); g != want {
-					fail("List:"+orderDiff(want, g), fmt.Sprintf("List(%s): got %s, source order is %s", src, g, want))
-				}
-			})
-			guard("ListOp", func() {
-				got := tpl.ListOp(in(), func(v any) string { return showAny(v) })
-				if g := strings.Join(got, " ; "); g != want {
-					fail("ListOp:"+orderDiff(want, g), fmt.Sprintf("ListOp(%s): got %s, source order is %s", src, g, want))
-				}
-			})
-			guard("RangeOp", func() {
-				var got []string
-				tpl.RangeOp(in(), func(v any) { got = append(got, showAny(v)) })
-				if g := strings.Join(got, " ; "); g != want {
-					fail("RangeOp:"+orderDiff(want, g), fmt.Sprintf("RangeOp(%s): visited %s, source order is %s", src, g, want))
-				}
-			})
+			list := func() {
+				guard("List", func() {
+					var got []string
+					for _, v := range tpl.List(in) {
+						got = append(got, showAny(v))
+					}
+					if g := strings.Join(got, " ; "); g != want {
+						fail("List:"+orderDiff(want, g), fmt.Sprintf("List(%s): got %s, source order is %s", src, g, want))
+					}
+				})
+				unchanged("List")
+			}
+			listOp := func() {
+				guard("ListOp", func() {
+					got := tpl.ListOp(in, func(v any) string { return showAny(v) })
+					if g := strings.Join(got, " ; "); g != want {
+						fail("ListOp:"+orderDiff(want, g), fmt.Sprintf("ListOp(%s): got %s, source order is %s", src, g, want))
+					}
+				})
+				unchanged("ListOp")
+			}
+			rangeOp := func() {
+				guard("RangeOp", func() {
+					var got []string
+					tpl.RangeOp(in, func(v any) { got = append(got, showAny(v)) })
+					if g := strings.Join(got, " ; "); g != want {
+						fail("RangeOp:"+orderDiff(want, g), fmt.Sprintf("RangeOp(%s): visited %s, source order is %s", src, g, want))
+					}
+				})
+				unchanged("RangeOp")
+			}
+			list()
+			rangeOp()
+			list()
+			listOp()
+			rangeOp()
+			listOp()
+			binop("BinaryOp", func() any { return tpl.BinaryOp(c.Rec, in, symFn) }) // and a fold after the list helpers
 		}
 		if res.V == "ok" {
 			res.Detail = c.Fold
@@ -256,7 +317,7 @@ func runFold() {
 // ---------------------------------------------------------------------------------- calculator
 
 const calcGrammar = `
-expr = operand % "*" % ("+" | "-")
+expr = operand % "*" % ("+" | "-") % ("<" | ">")
 operand = basicLit | unaryExpr | parenExpr
 unaryExpr = "-" operand
 parenExpr = "(" expr ")"
@@ -273,6 +334,16 @@ func newCalculator() *tpl.Compiler {
 			return x.(float64) - y.(float64)
 		case '*':
 			return x.(float64) * y.(float64)
+		case '<':
+			if x.(float64) < y.(float64) {
+				return 1.0
+			}
+			return 0.0
+		case '>':
+			if x.(float64) > y.(float64) {
+				return 1.0
+			}
+			return 0.0
 		}
 		panic("unexpected operator")
 	}
@@ -310,8 +381,10 @@ func (p *refParser) peek() string {
 func prec(op string) int {
 	switch op {
 	case "*":
-		return 2
+		return 3
 	case "+", "-":
+		return 2
+	case "<", ">":
 		return 1
 	}
 	return 0
@@ -347,6 +420,18 @@ func (p *refParser) expr(minPrec int) float64 {
 			lhs -= rhs
 		case "*":
 			lhs *= rhs
+		case "<":
+			if lhs < rhs {
+				lhs = 1
+			} else {
+				lhs = 0
+			}
+		case ">":
+			if lhs > rhs {
+				lhs = 1
+			} else {
+				lhs = 0
+			}
 		}
 	}
 }
@@ -355,7 +440,7 @@ func exprShape(toks []string) string {
 	var b strings.Builder
 	for _, t := range toks {
 		switch t {
-		case "+", "-", "*", "(", ")":
+		case "+", "-", "*", "<", ">", "(", ")":
 			b.WriteString(t)
 		default:
 			b.WriteByte('n')
